@@ -77,6 +77,11 @@ def impl(sc, keep=None):
         if keep is not None:
             keep["root"] = root
         if op == "ckd":
+            if sc.get("warm"):
+                # N earlier, unrelated derivations in the same process (same kind of node, other key material)
+                other = impl_root(dict(sc["root"], k=(sc["root"]["k"] * 7 + 11) % hd.N or 5, chain="5c" * 32))
+                for j in range(sc["warm"]):
+                    attempt(other.ckd, 1000 + j)
             return attempt(lambda: canon_impl_node(root.ckd(sc["i"])))
         if op == "derive":
             return attempt(lambda: canon_impl_node(root.derive_path(list(sc["path"]))))
